@@ -3,6 +3,7 @@ package protofields
 import (
 	"strings"
 
+	apb "github.com/google/fhir/go/proto/google/fhir/proto/annotations_go_proto"
 	dtpb "github.com/google/fhir/go/proto/google/fhir/proto/r4/core/datatypes_go_proto"
 	bcrpb "github.com/google/fhir/go/proto/google/fhir/proto/r4/core/resources/bundle_and_contained_resource_go_proto"
 	"github.com/iancoleman/strcase"
@@ -108,7 +109,7 @@ func IsCodeField(message proto.Message) bool {
 	if field != nil {
 		allowedKinds := []protoreflect.Kind{protoreflect.EnumKind, protoreflect.StringKind}
 		isValidFieldType := slices.Includes(allowedKinds, field.Kind())
-		return strings.HasSuffix(name, "Code") && isValidFieldType
+		return (strings.HasSuffix(name, "Code") || isValueSetBound(reflect.Descriptor())) && isValidFieldType
 	}
 	return false
 }
@@ -209,4 +210,12 @@ func init() {
 		fields.Extension.ValueX = getExtensionValueX(msg)
 		Elements[name] = fields
 	}
+}
+
+// isValueSetBound reports whether the message is a code bound to a value set.
+// google/fhir generates one wrapper message per bound code and annotates it
+// with the value set URL; most are named "...Code" but not all (e.g.
+// MessageHeader.response.code is "CodeType").
+func isValueSetBound(descriptor protoreflect.MessageDescriptor) bool {
+	return proto.HasExtension(descriptor.Options(), apb.E_FhirValuesetUrl)
 }
